@@ -16,6 +16,7 @@ from pyvc.contract import Contract, State
 from pyvc.values import SInt, SBool, SObj, SOpaque, Sym, Unsupported, PyRaise, zint, zbool, is_intlike
 from pyvc.ops import ClassRef, Builtin
 from pyvc import ops
+from pyvc.native import NativeBounded
 
 PROP = 'C07'
 LEVEL = 'proof'
@@ -265,8 +266,21 @@ def getitem_contracts():
     return out
 
 
+class InterpGrid(NativeBounded):
+    """numpy.interp applied to a function array equals numpy.interp applied to its value -- at the knots themselves, between and outside them,
+    with and without left/right (BOUNDED native enumeration, 4 knot tables x 4 option combinations x a grid of x).  On the pinned commit x == xp[0]
+    gave the `left` value (repaired).  The degenerate single-knot table still does (recorded KNOWN FINDING, clause interp-single-knot-equals-numpy)."""
+    prop = PROP
+    fn = 'function:__implementations__.interp'
+    label = 'native-grid'
+    bounded = 'native enumeration: 4 knot tables, left/right given or not, x on a grid containing every knot, midpoints and outside points (140 cases)'
+    module = 'c07'
+    call = 'interp_grid()'
+    clauses = ('interp-equals-numpy', 'interp-single-knot-equals-numpy')
+
+
 def contracts():
-    cs = [NormDim()] + getitem_contracts()
+    cs = [NormDim(), InterpGrid()] + getitem_contracts()
     for hs in (False, True):
         for hp in (False, True):
             for step in (None, 1):
